@@ -108,6 +108,7 @@ type Contracts struct {
 	Benign  []string
 	Immut   map[string]map[string]bool // pkgpath -> "Type.field"
 	Ctors   map[string]bool            // display names of start-up functions that may write immutable fields
+	GhostGroups [][]string             // ghosts that always change together: naming one in `modifies` names all
 	Files   []string
 }
 
@@ -116,7 +117,7 @@ func newContracts() *Contracts {
 }
 
 var topKeywords = map[string]bool{"func": true, "extern": true, "pred": true, "ghost": true, "lock": true,
-	"lemma": true, "axiom": true, "benign": true, "fn": true, "immutable": true, "constructors": true}
+	"lemma": true, "axiom": true, "benign": true, "fn": true, "immutable": true, "constructors": true, "ghostgroup": true}
 var clauseKeywords = map[string]bool{"props": true, "arith": true, "requires": true, "ensures": true,
 	"modifies": true, "loop": true, "invariant": true, "decreases": true, "unroll": true, "trusted": true,
 	"maypanic": true, "guarantee": true, "guards": true, "ghostparam": true, "inst": true, "onreturn": true, "lockassume": true, "assume": true}
@@ -420,6 +421,14 @@ func (cs *Contracts) loadFile(path, pkgPath string) error {
 			}
 			curLemma = &Lemma{Name: ll.name, Clause: c, Axiom: l.kw == "axiom", OptIn: optin, Pkg: pkgPath}
 			cs.Lemmas = append(cs.Lemmas, curLemma)
+		case "ghostgroup":
+			var g []string
+			for _, b := range strings.Split(l.rest, ",") {
+				if b = strings.TrimSpace(b); b != "" {
+					g = append(g, b)
+				}
+			}
+			cs.GhostGroups = append(cs.GhostGroups, g)
 		case "constructors":
 			for _, b := range strings.Split(l.rest, ",") {
 				if b = strings.TrimSpace(b); b != "" {
